@@ -242,6 +242,17 @@ func (e *Eval) hardcoded(fr *Frame, cc *ssa.CallCommon, fn *ssa.Function, args [
 		old := e.load(st, args[0], t)
 		ok := c.Define(site, "Bool", eq(old, args[1].T))
 		e.store(st, args[0], t, ite(ok, args[2].T, old))
+		if a := args[0].A; a != nil && a.Kind == "field" && len(a.Path) == 0 {
+			if r := e.ruleFor(a.Comp); r != nil && r.Kind == "refcount" {
+				// a successful swap of a reference count: the invocation
+				// holds (new - old) more references
+				e.declOwed()
+				c.Decl("bv2int_signed", "(define-fun bv2int_signed ((x (_ BitVec 64))) Int (ite (bvslt x #x0000000000000000) (- (bv2nat x) 18446744073709551616) (bv2nat x)))")
+				o := c.Get(st, "$owed")
+				d := fmt.Sprintf("(- (bv2int_signed %s) (bv2int_signed %s))", args[2].T, args[1].T)
+				c.Set(st, "$owed", ite(ok, sto(o, a.Base, fmt.Sprintf("(+ %s %s)", sel(o, a.Base), d)), o))
+			}
+		}
 		return ret(Val{T: ok})
 	case "(encoding/binary.littleEndian).Uint16", "(encoding/binary.littleEndian).Uint32", "(encoding/binary.littleEndian).Uint64":
 		c.Assume("encoding/binary.LittleEndian.UintN: byte k of the slice is bits 8k..8k+7 (and panics when the slice is shorter)")
